@@ -933,6 +933,8 @@ func syntaxGen(w *bufio.Writer, a map[string]string) {
 	case "C06":
 		genRuneSweep(w, true)
 		genSpecLayout(w, rng, 40000*scale, true, false)
+		// … and through the real binary: what `--fmt` leaves in the file is the model's print of the structure written
+		genBinary(w, rng, 500*scale)
 	case "C07", "C11", "C15":
 		genRuneSweep(w, false)
 		genByteSweep(w)
